@@ -30,7 +30,8 @@ def t_window_of_alloc(k):
     }
     body = [
         ["alloc", "tmp_a", "f32", ["2", "2", "2"], "DRAM"],
-        ["for", "i0", "0", "2", [["for", "i1", "0", "2", [["for", "i2", "0", "2", [["assign", "tmp_a", ["i0", "i1", "i2"], "0.0"]], "seq"]], "seq"]], "seq"],
+        ["call", "copy2", [f"tmp_a[{a}, {b}, 0:2]", "A[0:2]"]],
+        ["call", "copy2", [f"tmp_a[{1 - a}, 1, 0:2]", "A[2:4]"]],
         ["for", "i", "0", "3", [
             ["call", "copy2", [f"tmp_a[{a}, {b}, 0:2]", "A[i:i + 2]"]],
             ["for", "k", "0", "2", [["assign", "tmp_a", [str(1 - a), "k", "0"], "A[i + k]"]], "seq"],
